@@ -212,14 +212,16 @@ impl RangeDownloader {
     ) -> Result<Vec<u8>, RangeError> {
         // Construct archive URL with proper CDN path structure
         // Archives are stored in a two-level directory structure based on the first 4 characters
+        // (a name too short or not ASCII has no such levels: no slicing panic, the request fails)
+        let (dir1, dir2) = super::cdn_dir_levels(archive_name);
         let url = if let Some(product_path) = &cdn_endpoint.product_path {
             format!(
                 "https://{}/{}/{}/data/{}/{}/{}",
                 cdn_endpoint.host,
                 cdn_endpoint.path,
                 product_path,
-                &archive_name[0..2],
-                &archive_name[2..4],
+                dir1,
+                dir2,
                 archive_name
             )
         } else {
@@ -227,8 +229,8 @@ impl RangeDownloader {
                 "https://{}/{}/data/{}/{}/{}",
                 cdn_endpoint.host,
                 cdn_endpoint.path,
-                &archive_name[0..2],
-                &archive_name[2..4],
+                dir1,
+                dir2,
                 archive_name
             )
         };
